@@ -194,6 +194,9 @@ class OpGen:
                     elif r < 0.45:
                         default = self.literal(a.type)
                         self.feats.add("var.default")
+                elif r < 0.12 and not isinstance(get_named_type(a.type), GraphQLInputObjectType):
+                    default = self.literal(a.type.of_type)  # `$limit: Int! = 10`: non-null AND defaulted
+                    self.feats.add("var.default_on_nonnull")
                 self.vars.append((vname, vtype, default))
                 parts.append("%s: $%s" % (aname, vname))
                 named = get_named_type(a.type)
